@@ -3,7 +3,7 @@ package checks
 // C05 — logical clocks only move forward and dominate everything seen.
 //
 // A decorator around repository.ClockedRepo (c05Repo) records what git-bug does with the
-// clocks and which Lamport times it writes into commits; the workload driver adds
+// clocks and which Lamport times it writes into commits (and can make one storage call fail: c05_retry.go); the workload driver adds
 // API-boundary events (an entity was read / merged successfully, the repository was
 // re-opened, clock files were deleted). An offline checker (c05CheckLog) then replays the
 // event log against the invariants of the property.
@@ -49,6 +49,8 @@ type c05Event struct {
 	Values map[string]uint64 `json:"values,omitempty"` // reading
 	Gone   []string          `json:"gone,omitempty"`   // deleted: names of the deleted clock files
 	Stored []uint64          `json:"stored,omitempty"` // deleted: max (edit, create) over the stored entities at that moment
+	Refs   int               `json:"refs,omitempty"`   // deleted: number of stored entities (bug refs) at that moment
+	Ctx    string            `json:"ctx,omitempty"`    // wrote/commit: written while retrying a commit whose first attempt failed; fault: the failed call
 }
 
 type c05Log struct {
@@ -71,6 +73,11 @@ type c05Repo struct {
 	mu     sync.Mutex
 	trees  map[repository.Hash]uint64 // tree hash -> edit time found in its entry names
 	ancMax map[string]uint64          // commit hash -> max edit time over the commit and its ancestors
+	// one-shot fault (c05_retry.go): the (faultSkip+1)-th call of kind faultCall fails, then the switch is off again
+	faultCall  string // data|tree|commit|ref ; "" = off
+	faultSkip  int
+	faultFired bool
+	ctx        string // tag put on the wrote/commit events (a retry after a failed write)
 }
 
 var _ repository.ClockedRepo = &c05Repo{}
@@ -80,6 +87,9 @@ func newC05Repo(inner repository.TestedRepo, log *c05Log) *c05Repo {
 }
 
 func (d *c05Repo) StoreTree(entries []repository.TreeEntry) (repository.Hash, error) {
+	if err := d.fault("tree"); err != nil {
+		return "", err
+	}
 	h, err := d.TestedRepo.StoreTree(entries)
 	if err != nil {
 		return h, err
@@ -87,11 +97,11 @@ func (d *c05Repo) StoreTree(entries []repository.TreeEntry) (repository.Hash, er
 	for _, e := range entries {
 		if strings.HasPrefix(e.Name, "edit-clock-") {
 			if v, perr := strconv.ParseUint(strings.TrimPrefix(e.Name, "edit-clock-"), 10, 64); perr == nil {
+				// only bugs are written in these workloads. The time counts as written once the commit holding the
+				// tree is stored (committed): a tree whose commit could not be written is not a written commit.
 				d.mu.Lock()
 				d.trees[h] = v
 				d.mu.Unlock()
-				// only bugs are written in these workloads
-				d.log.add(c05Event{Kind: "wrote", NS: "bugs", T: v})
 			}
 		}
 	}
@@ -136,10 +146,17 @@ func (d *c05Repo) committed(tree repository.Hash, parents []repository.Hash) {
 			anc = v
 		}
 	}
-	d.log.add(c05Event{Kind: "commit", NS: "bugs", T: t, Anc: anc, Origin: fmt.Sprintf("parents=%d", len(parents))})
+	d.mu.Lock()
+	ctx := d.ctx
+	d.mu.Unlock()
+	d.log.add(c05Event{Kind: "wrote", NS: "bugs", T: t, Ctx: ctx})
+	d.log.add(c05Event{Kind: "commit", NS: "bugs", T: t, Anc: anc, Origin: fmt.Sprintf("parents=%d", len(parents)), Ctx: ctx})
 }
 
 func (d *c05Repo) StoreCommit(tree repository.Hash, parents ...repository.Hash) (repository.Hash, error) {
+	if err := d.fault("commit"); err != nil {
+		return "", err
+	}
 	h, err := d.TestedRepo.StoreCommit(tree, parents...)
 	if err == nil {
 		d.committed(tree, parents)
@@ -148,6 +165,9 @@ func (d *c05Repo) StoreCommit(tree repository.Hash, parents ...repository.Hash) 
 }
 
 func (d *c05Repo) StoreSignedCommit(tree repository.Hash, key *openpgp.Entity, parents ...repository.Hash) (repository.Hash, error) {
+	if err := d.fault("commit"); err != nil {
+		return "", err
+	}
 	h, err := d.TestedRepo.StoreSignedCommit(tree, key, parents...)
 	if err == nil {
 		d.committed(tree, parents)
@@ -198,12 +218,18 @@ func c05CheckLog(events []c05Event, backend string) []c05Finding {
 	floor := map[string]map[string]uint64{"mem": {}, "file": {}}
 	pendingRebuild := map[string]map[string]bool{"mem": {}, "file": {}}
 	reopenedSince := map[string]bool{} // per source: a re-open happened since the last reading
+	rebuildRefs := 0                   // number of stored entities at the last deletion of clock files
 	for i, e := range events {
 		switch e.Kind {
 		case "wrote":
 			for _, o := range origins {
 				if m, ok := maxBy[o]; ok && e.T <= m {
-					bad(i, "edit-time-not-above-"+o, fmt.Sprintf("a commit was written with edit time %d although this repository had already %s an edit time of %d in the same namespace", e.T, c05Verb(o), m))
+					key, how := "edit-time-not-above-"+o, ""
+					if e.Ctx != "" {
+						key += ":" + e.Ctx
+						how = " (" + e.Ctx + ": the first attempt to commit these operations failed on an injected storage error, the same in-memory entity was committed again later)"
+					}
+					bad(i, key, fmt.Sprintf("a commit was written with edit time %d although this repository had already %s an edit time of %d in the same namespace%s", e.T, c05Verb(o), m, how))
 					break
 				}
 			}
@@ -212,7 +238,11 @@ func c05CheckLog(events []c05Event, backend string) []c05Finding {
 			}
 		case "commit":
 			if e.T <= e.Anc {
-				bad(i, "edit-time-not-above-ancestors", fmt.Sprintf("a commit with edit time %d was written on top of ancestors with edit time up to %d (%s)", e.T, e.Anc, e.Origin))
+				key := "edit-time-not-above-ancestors"
+				if e.Ctx != "" {
+					key += ":" + e.Ctx
+				}
+				bad(i, key, fmt.Sprintf("a commit with edit time %d was written on top of ancestors with edit time up to %d (%s)", e.T, e.Anc, e.Origin))
 			}
 		case "seen":
 			for _, t := range e.Times {
@@ -234,6 +264,7 @@ func c05CheckLog(events []c05Event, backend string) []c05Finding {
 		case "reopen":
 			reopenedSince["mem"], reopenedSince["file"] = true, true
 		case "deleted":
+			rebuildRefs = e.Refs
 			for _, name := range e.Gone {
 				delete(floor["mem"], name)
 				delete(floor["file"], name)
@@ -258,7 +289,13 @@ func c05CheckLog(events []c05Event, backend string) []c05Finding {
 				if !present || v < f {
 					switch {
 					case pendingRebuild[src][name]:
-						bad(i, "rebuilt-clock-below-stored-max:"+name+":"+src, fmt.Sprintf("after deleting the clock files and re-opening with the clock loaders, clock %s reads %d (present=%v) but the stored entities reach %d", name, v, present, f))
+						key, many := "rebuilt-clock-below-stored-max:"+name+":"+src, ""
+						if rebuildRefs >= 8 {
+							// the rebuild went over many entities (c05_many.go): a class of its own (loaders that split, batch or sample the refs)
+							key += ":many-entities"
+							many = fmt.Sprintf(" (%d entities stored)", rebuildRefs)
+						}
+						bad(i, key, fmt.Sprintf("after deleting the clock files and re-opening with the clock loaders, clock %s reads %d (present=%v) but the stored entities reach %d%s", name, v, present, f, many))
 					case reopenedSince[src]:
 						bad(i, "clock-decreased:"+src+":"+c05ClockClass(name)+":across-reopen", fmt.Sprintf("clock %s reads %d (present=%v) after a re-open, it was at least %d before", name, v, present, f))
 					default:
@@ -308,13 +345,18 @@ type C05Peer struct {
 }
 
 type C05Step struct {
-	Op    string   `json:"op"` // inc|witness|create|edit|read|readall|push|fetch|merge|pull|reopen|wipe
+	Op    string   `json:"op"` // inc|witness|create|edit|read|readall|push|fetch|merge|pull|reopen|wipe|failcommit|retry|bulk|createat|editat
 	Clock string   `json:"clock,omitempty"`
 	Delta int      `json:"delta,omitempty"` // witness: value = current reading + delta (may be negative)
 	Bug   int      `json:"bug,omitempty"`
 	N     int      `json:"n,omitempty"` // create/edit: number of further operations, authors alternate (several packs)
 	Peer  *C05Peer `json:"peer,omitempty"`
 	Wipe  string   `json:"wipe,omitempty"` // all|edit|create|other
+	// failcommit (c05_retry.go): one storage call of the commit fails; New: a new bug instead of an edit of Bug
+	Fault *C05Fault `json:"fault,omitempty"`
+	New   bool      `json:"new,omitempty"`
+	// createat|editat (c05_many.go): position in the repository's listing of the bug refs: first|last|rank (rank = Bug mod count)
+	Pos string `json:"pos,omitempty"`
 }
 
 type C05Case struct {
@@ -331,6 +373,7 @@ type C05Result struct {
 	HarnessError string         `json:"harness_error"`
 	Skipped      []string       `json:"skipped"`
 	LogTail      []c05Event     `json:"log_tail,omitempty"`
+	RebuildSizes []int          `json:"rebuild_sizes,omitempty"` // numbers of stored bugs (>= 8) when clock files were deleted
 }
 
 var c05Clocks = []string{"bugs-edit", "bugs-edit", "bugs-create", "verif-x"}
@@ -419,6 +462,8 @@ func c05Cases(r *mon.Run) []C05Case {
 		{Op: "create", N: 1}, {Op: "edit", Bug: 0, N: 2}, {Op: "witness", Clock: "bugs-edit", Delta: -30}, {Op: "edit", Bug: 1, N: 1},
 		{Op: "fetch", Peer: &C05Peer{Edits: []int{0, 1}, Jump: 7}}, {Op: "edit", Bug: 0, N: 1}, {Op: "merge"}, {Op: "edit", Bug: 0, N: 1}, {Op: "readall"}, {Op: "create"},
 	}})
+	out = append(out, c05RetryCases(r)...)
+	out = append(out, c05ManyCases(r)...)
 	return out
 }
 
@@ -440,6 +485,11 @@ type c05Env struct {
 	// bigJump: the edit clock of the repository under test was legitimately moved more than the read-time hop
 	// limit (1 000 000) ahead, by a witness or by merging an entity created on a replica that is that far ahead
 	bigJump bool
+	// a commit failed on an injected storage error: the in-memory entity is kept and committed again by a later "retry" step
+	pending      *bug.Bug
+	pendingId    entity.Id
+	pendingNew   bool
+	pendingFault string
 }
 
 func (e *c05Env) tick() int64 { e.now++; return e.now }
@@ -518,6 +568,9 @@ func (e *c05Env) localBug(idx int) (entity.Id, bool) {
 	// pick the first locally present bug at or after idx
 	for k := 0; k < len(e.bugs); k++ {
 		id := e.bugs[(idx+k)%len(e.bugs)]
+		if e.pending != nil && id == e.pendingId {
+			continue // the kept in-memory object is the only writer of that bug until its commit was retried
+		}
 		if ok, _ := e.dec.RefExist("refs/bugs/" + id.String()); ok {
 			return id, true
 		}
@@ -593,7 +646,7 @@ func (e *c05Env) peerActs(p *C05Peer) error {
 			break
 		}
 		id := e.bugs[idx%len(e.bugs)]
-		if !e.onPeer[id] {
+		if !e.onPeer[id] || (e.pending != nil && id == e.pendingId) {
 			continue
 		}
 		pb, err := world.ReadBug(pr, id)
@@ -751,6 +804,10 @@ func (e *c05Env) reopen(wipe string) error {
 	loaders := []repository.ClockLoader{bug.ClockLoader}
 	if wipe != "" {
 		stored := e.storedMax()
+		nrefs := 0
+		if refs, err := e.dec.ListRefs("refs/bugs/"); err == nil {
+			nrefs = len(refs)
+		}
 		_ = e.a.Repo.Close()
 		dir := filepath.Join(e.a.Dir, ".git", "git-bug", "clocks")
 		var gone []string
@@ -777,7 +834,11 @@ func (e *c05Env) reopen(wipe string) error {
 		if wipe == "all" {
 			_ = os.Remove(dir)
 		}
-		e.log.add(c05Event{Kind: "deleted", Gone: gone, Stored: stored[:]})
+		e.log.add(c05Event{Kind: "deleted", Gone: gone, Stored: stored[:], Refs: nrefs})
+		if len(gone) > 0 && nrefs >= 8 {
+			e.res.Counts["clock_rebuilds_over_8_or_more_entities"]++
+			e.res.RebuildSizes = append(e.res.RebuildSizes, nrefs)
+		}
 		e.res.Counts["clock_files_deleted"] += len(gone)
 	} else {
 		_ = e.a.Repo.Close()
@@ -967,13 +1028,36 @@ func runC05Case(c C05Case) C05Result {
 				done = false
 				break
 			}
-			if err := e.reopen(s.Wipe); err != nil {
+			wipe := s.Wipe
+			if e.pending != nil && wipe != "" {
+				// a pack of the kept entity may be stored without a ref (failed ref update): what a rebuild owes to it is
+				// not stated, so the clock files stay while a retry is outstanding
+				wipe = ""
+				res.Counts["wipes_turned_into_reopen_while_retry_outstanding"]++
+			}
+			if err := e.reopen(wipe); err != nil {
 				// nothing more can be observed
 				e.reading()
 				goto END
 			}
+		case "failcommit":
+			done = e.failCommit(si, s)
+		case "retry":
+			done = e.retryCommit()
+		case "bulk":
+			if err := e.bulkCreate(s.N); err != nil {
+				res.HarnessError = "bulk: " + err.Error()
+				return res
+			}
+		case "createat":
+			done = e.createAt(si, s)
+		case "editat":
+			done = e.editAt(s)
 		default:
 			res.HarnessError = "unknown step " + s.Op
+			return res
+		}
+		if res.HarnessError != "" {
 			return res
 		}
 		if done {
@@ -1008,6 +1092,14 @@ END:
 	}
 	reopens -= wipes
 	res.Nontrivial = wrote >= 3 && merged >= 1 && (c.Backend == "mock" || reopens+wipes >= 1)
+	// retry sequences: at least one commit failed on an injected fault and was retried after other packs were written;
+	// many-entity sequences: at least one clock rebuild went over 8 or more stored bugs
+	if res.Counts["retries_after_injected_failure"] >= 1 && wrote >= 4 {
+		res.Nontrivial = true
+	}
+	if res.Counts["clock_rebuilds_over_8_or_more_entities"] >= 1 {
+		res.Nontrivial = true
+	}
 	bucket := func(n int) string {
 		switch {
 		case n == 0:
@@ -1024,6 +1116,31 @@ END:
 		parts = append(parts, k+"="+bucket(kinds[k]))
 	}
 	res.Shape = fmt.Sprintf("%s %s wrote=%s merged=%s mergecommits=%s wipes=%d", c.Backend, strings.Join(parts, ","), bucket(wrote), bucket(merged), bucket(res.Counts["merge_commits_written"]), wipes)
+	if n := res.Counts["commits_failed_by_injected_fault"]; n > 0 {
+		var calls []string
+		for _, call := range []string{"data", "tree", "commit", "ref"} {
+			if res.Counts["commits_failed_at_"+call] > 0 {
+				calls = append(calls, call)
+			}
+		}
+		res.Shape += " failed-at=" + strings.Join(calls, "+")
+	}
+	maxRebuild := 0
+	for _, n := range res.RebuildSizes {
+		if n > maxRebuild {
+			maxRebuild = n
+		}
+	}
+	if n := maxRebuild; n >= 8 {
+		switch {
+		case n < 16:
+			res.Shape += " entities=8-15"
+		case n < 32:
+			res.Shape += " entities=16-31"
+		default:
+			res.Shape += " entities=32+"
+		}
+	}
 	if len(events) > 12 {
 		res.LogTail = events[len(events)-12:]
 	}
@@ -1210,6 +1327,9 @@ func runC05(tier, replay string) int {
 		for k, v := range res.Counts {
 			r.Count(k, v)
 		}
+		for _, n := range res.RebuildSizes {
+			r.Seen("entity_counts_at_clock_rebuild", fmt.Sprintf("%02d", n))
+		}
 		for _, s := range res.Skipped {
 			r.Seen("skipped_actions", c05HexRe.ReplaceAllString(errClass(fmt.Errorf("%s", s)), "<id>"))
 		}
@@ -1237,11 +1357,13 @@ func runC05(tier, replay string) int {
 	if replay != "" || cliOnly {
 		min = 0
 	}
-	return r.Finish("seeded sequences of {increment, witness(random value), create bug, edit+commit (1..4 ops, two alternating authors), read, read-all, publish, fetch (second replica creates/edits/jumps ahead first), merge, re-open, delete clock files (all / edit / create / other) + re-open with the clock loader} on an on-disk go-git repository and on the in-memory repository (no re-open); every tree/commit write and clock call is logged by a decorator around repository.ClockedRepo, successful reads/merges are logged with the edit times gitraw finds in the entity; an offline checker replays the log: written edit time > running max of written/read/merged/rebuilt, > all ancestors, clock readings (AllClocks and clock files) monotone also across re-open, rebuilt clocks >= max over stored entities; thorough adds a CLI session with the real binary; non-trivial = >=3 written commits, >=1 merged entity and (on disk) >=1 re-open; distinct = backend + bucketed step-kind counts",
+	return r.Finish("seeded sequences of {increment, witness(random value), create bug, edit+commit (1..4 ops, two alternating authors), read, read-all, publish, fetch (second replica creates/edits/jumps ahead first), merge, re-open, delete clock files (all / edit / create / other) + re-open with the clock loader} on an on-disk go-git repository and on the in-memory repository (no re-open); every tree/commit write and clock call is logged by a decorator around repository.ClockedRepo, successful reads/merges are logged with the edit times gitraw finds in the entity; an offline checker replays the log: written edit time > running max of written/read/merged/rebuilt, > all ancestors, clock readings (AllClocks and clock files) monotone also across re-open, rebuilt clocks >= max over stored entities; retry sequences (both backends): one storage call of a Commit (blob / tree / commit / ref update, also at the 2nd or 3rd pack of a commit) fails through a one-shot switch of the decorator, the in-memory bug is kept while other bugs are created, edited, read, merged and the repository is re-opened, then the same object is committed again: the retry's packs are judged like every written commit; many-entity sequences (on disk): 8..41 bugs, the highest creation+edit (or edit) time put on the first / last / a seed-determined rank of the repository's ref listing, clock files deleted (all / edit / create) and the repository re-opened with the clock loader, count growing across the multiples of 8; thorough adds a CLI session with the real binary; non-trivial = >=3 written commits, >=1 merged entity and (on disk) >=1 re-open, or >=1 retried commit after an injected failure with >=4 written commits, or >=1 clock rebuild over >=8 bugs; distinct = backend + bucketed step-kind counts (+ failed call kinds, + entity-count bucket)",
 		min, []string{
 			"only valid data circulates, witness values stay far below the 1 000 000 hop limit",
 			"edit times of fetched-but-unmerged refs and of refused merges are not counted as seen",
 			"after a deletion of the edit clock file the running maximum restarts from the maximum over the locally stored entities",
 			"identity.ClockLoader does not exist on this tree: the repository is re-opened with []repository.ClockLoader{bug.ClockLoader}",
+			"an edit time counts as written when the commit object holding it is stored (a tree or blob of a commit that failed is not a written commit)",
+			"injected faults: exactly one failing storage call per failed Commit; until the retry nobody else writes the kept bug and no clock file is deleted (a pack stored without a ref is not a stored entity for the rebuild)",
 		})
 }
